@@ -24,8 +24,10 @@ def gen_config(rnd, max_jobs=14, max_depth=3, profile=None):
     """profile: dict of probabilities; missing keys take defaults"""
     p = dict(window=0.5, timeout=0.5, exc=0.35, crit=0.35, forever=0.2, never=0.15, nested=0.25,
              cdur=0.3, sdur=0.4, sd_never=0.08, edge=0.35, pure_root=0.25, job_cls=0.3, verbose=0.1,
-             yields=0.3, maxdur=5, root_timeout=0.4, sdto_none=0.15)
+             yields=0.3, maxdur=5, root_timeout=0.4, sdto_none=0.15, tie=0.3)
     p.update(profile or {})
+    # ties: many completions in the same instant
+    dset = rnd.choice([[1], [1, 2], [2, 3], [0, 1], [1, 1, 3]]) if rnd.random() < p["tie"] else None
     jobs = []
     pure_root = rnd.random() < p["pure_root"]
     root = S(0, rnd)
@@ -56,7 +58,7 @@ def gen_config(rnd, max_jobs=14, max_depth=3, profile=None):
             j["crit"] = rnd.random() < p["crit"]
             j["forever"] = rnd.random() < p["forever"]
             j["out"] = "exc" if rnd.random() < p["exc"] else "ret"
-            j["dur"] = rnd.randint(0, p["maxdur"])
+            j["dur"] = rnd.choice(dset) if dset else rnd.randint(0, p["maxdur"])
             if rnd.random() < p["never"] and (j["forever"] or under_timeout[par]):
                 j["dur"] = None
             if rnd.random() < p["cdur"]:
